@@ -20,13 +20,18 @@ CONSTANT MaxLen
 Contexts == {"LineComment", "BlockComment", "RawString", "InterpString"}
 Escapers == {"none", "comment", "blockcomment", "escapeBackticks", "quote"}
 \* payload alphabet: newline, comment terminator, back-quote, double quote, backslash, plain text
-Toks == {"NL", "STARSLASH", "BQ", "DQ", "BS", "TXT"}
+\* CRLF: carriage return + newline (the Go scanner ends a line comment at the newline; the carriage
+\* return before it is ordinary comment text)
+Toks == {"NL", "CRLF", "STARSLASH", "BQ", "DQ", "BS", "TXT"}
+LineTerminators == {"NL", "CRLF"}
 
 \* escaped form of one payload token: a sequence of [t |-> token, own |-> TRUE iff it comes from the payload]
 P(t) == [t |-> t, own |-> TRUE]
 G(t) == [t |-> t, own |-> FALSE]       \* glue inserted by the escaper
 Escape(e, t) ==
   CASE e = "comment" /\ t = "NL"             -> <<G("NL"), G("SLASHSLASH")>>                 \* padComment: newline + "// "
+    [] e = "comment" /\ t = "CRLF"           -> <<P("TXT"), G("NL"), G("SLASHSLASH")>>       \* the CR stays, every newline is padded
+    [] e = "quote" /\ t = "CRLF"             -> <<G("BS"), P("TXT"), G("BS"), P("TXT")>>     \* \r\n
     [] e = "blockcomment" /\ t = "STARSLASH" -> <<P("TXT")>>                                 \* "*/" rewritten, no longer a terminator
     [] e = "escapeBackticks" /\ t = "BQ"     -> <<G("BQ"), G("PLUS"), G("DQ"), P("BQ"), G("DQ"), G("PLUS"), G("BQ")>>
     [] e = "quote" /\ t = "DQ"               -> <<G("BS"), P("DQ")>>                         \* printf %q
@@ -36,11 +41,11 @@ Escape(e, t) ==
 
 \* the scanner: (context, pending backslash) x token -> context
 Scan(ctx, bs, t) ==
-  CASE ctx = "LineComment"  /\ t = "NL"        -> "Code"
+  CASE ctx = "LineComment"  /\ t \in LineTerminators -> "Code"
     [] ctx = "BlockComment" /\ t = "STARSLASH" -> "Code"
     [] ctx = "RawString"    /\ t = "BQ"        -> "Code"
     [] ctx = "InterpString" /\ t = "DQ" /\ ~bs -> "Code"
-    [] ctx = "InterpString" /\ t = "NL"        -> "Broken"          \* newline in interpreted string: syntax error
+    [] ctx = "InterpString" /\ t \in LineTerminators -> "Broken"          \* newline in interpreted string: syntax error
     [] ctx = "Code" /\ t = "BQ"                -> "RawString"
     [] ctx = "Code" /\ t = "DQ"                -> "InterpString"
     [] ctx = "Code" /\ t = "SLASHSLASH"        -> "LineComment"
